@@ -2,5 +2,5 @@ From Coq Require Import ExtrOcamlBasic ZArith.
 From LX Require Import Model.Voices.
 Definition ztypes_witness : Z * nat := (0%Z, 0%nat).
 Cd "extracted".
-Extraction "voices_model.ml" ztypes_witness virt_init vstep invb.
+Extraction "voices_model.ml" ztypes_witness virt_init vstep invb modeb op_okb.
 Cd "..".
